@@ -122,7 +122,10 @@ type c01Registration struct {
 }
 
 func c01AnalyseRegistration(c *core.Ctx) *c01Registration {
-	ar := c.Fn("abft.Store.AddRoot")
+	// decided on the inlined view of AddRoot (the key builder stays a call: it is the anchor through
+	// which the written record is read), so that the record may be built in AddRoot or in the helper that
+	// writes it, and the cache may be reached through accessor helpers
+	ar := c01View(c.Fn("abft.Store.AddRoot"), "abft.rootRecordKey")
 	r := &c01Registration{ar: ar, spf: ar.Param(0), root: ar.Param(1), loopPos: ar.Pos()}
 	r.puts = c01Effects(ar, c01IsRootsPut)
 	r.touches = c01Effects(ar, c01IsCacheTouch)
@@ -132,7 +135,7 @@ func c01AnalyseRegistration(c *core.Ctx) *c01Registration {
 	// the first loop of AddRoot (so that the per-slot obligation can name it)
 	var loop ast.Stmt
 	for _, e := range append(append([]c01Effect(nil), r.puts...), r.touches...) {
-		if l := enclosingLoop(ar, e.At.Pos()); l != nil && loop == nil {
+		if l := c01LoopAround(ar, e.At.Call); l != nil && loop == nil {
 			loop = l
 		}
 	}
@@ -167,21 +170,20 @@ func c01AnalyseRegistration(c *core.Ctx) *c01Registration {
 func c01Slots(c *core.Ctx) {
 	c.Clause("C01.slots", func() {
 		// voting
-		he := c.Fn("abft.Orderer.handleElection")
+		// the live vote: a ProcessRoot call of handleElection's inlined view that does not vote with a stored
+		// root (the replay of stored roots votes too, but is not the live vote); helpers that are handed
+		// the root and the frame are folded into the view
+		hd := c01DriverView(c.Fn("abft.Orderer.handleElection"), c01ReplayRoutines(c.P))
+		he := hd.v
 		spf, root := he.Param(0), he.Param(1)
-		// the live vote: ProcessRoot called in handleElection's slot loop, or in a helper called from that
-		// loop which is handed the root and the frame (the replay of stored roots votes too, but is not
-		// the live vote)
 		var votes []c01Effect
-		for _, e := range c01Effects(he, func(cs *core.CallSite) bool { return cs.Name == "abft/election.Election.ProcessRoot" }) {
-			if e.G == he || !c01IsReplayCall(e.At) {
-				votes = append(votes, e)
-			}
+		for _, cs := range hd.lives {
+			votes = append(votes, c01Effect{Caller: he, At: cs, G: he, Eff: cs})
 		}
 		for _, e := range votes {
 			cs := e.Eff
 			c.Need(len(cs.Call.Args) == 1, "ProcessRoot takes the root and slot")
-			cl, why := c01CountedLoop(he, enclosingLoop(he, e.At.Pos()))
+			cl, why := c01CountedLoop(he, c01LoopAround(he, e.At.Call))
 			if cl == nil {
 				c.Undecided("voting enumerates frames selfParentFrame+1 .. root.Frame()", "T16b SiblingAgreement (loop bounds)", cs.Pos(), "the live vote is not cast inside a counted loop over the root's frames: "+why)
 				continue
@@ -326,7 +328,8 @@ func c01CachedList(c *core.Ctx, reg *c01Registration) {
 			ok, why = false, "the lookup's hit flag is not kept or no list is stored back"
 			continue
 		}
-		q := core.PathQuery{F: g, From: t.Eff.Pt, FromAfter: true, Avoid: core.PointSet(core.Points(adds)...), AvoidEdge: g.GuardEdges(c01BoolFact(g, hit, false)), TargetExit: true}
+		// (the hit flag may be handed on by an accessor folded into the view: its value is followed)
+		q := c01EnvQuery{F: g, From: t.Eff.Pt, FromAfter: true, Init: map[*types.Var]c01Abs{hit: c01AbsTrue}, Avoid: core.PointSet(core.Points(adds)...), AvoidEdge: g.GuardEdges(c01BoolFact(g, hit, false)), TargetExit: true}
 		if g == ar {
 			q.TargetBlock = func(b *cfg.Block) bool { return b == reg.loop.Head || b == reg.loop.Done }
 		}
